@@ -1,160 +1,7 @@
 import ComposeVerif.Spec.Interp
-/-! Helper lemmas for C08: facts about `CV.Template.subst` on escaped / `$`-free / `${NAME}` texts, and the
-structural lemmas about `Interp.interp`. -/
-namespace CV.TemplateC08
-open CV CV.Template
-open CV.Interp (escapeDollars ValidName)
+import ComposeVerif.Props.C07
+/-! Helper lemmas for C08: structural lemmas about `Interp.interp` (the facts about `CV.Template.subst` are C07's theorems). -/
 
-/-! ## `template.Substitute` on three simple classes of text -/
-
-theorem repl_escaped (f : Nat) (env : Env) : repl (f + 1) env ['$', '$'] = .ok ['$'] := by
-  simp [repl, firstClose, firstCloseGo, matchDollar]
-
-theorem scan_nil (f : Nat) (env : Env) (acc : Str) : scan (f + 1) env [] acc none = .ok acc := by
-  rw [scan]
-
-theorem scan_nondollar (f : Nat) (env : Env) (c : Char) (cs acc : Str) (fe : Option Err) (hc : (c == '$') = false) :
-    scan (f + 1) env (c :: cs) acc fe = scan f env cs (acc ++ [c]) fe := by
-  rw [scan]; simp only [hc]; rfl
-
-theorem scan_escaped (f : Nat) (env : Env) (r acc : Str) (fe : Option Err) :
-    scan (f + 2) env ('$' :: '$' :: r) acc fe = scan (f + 1) env r (acc ++ ['$']) fe := by
-  rw [scan]; simp only [beq_self_eq_true, if_true, matchDollar, repl_escaped]
-
-theorem scan_escape (env : Env) : ∀ (s : Str) (fuel : Nat) (acc : Str), (escapeDollars s).length + 1 ≤ fuel →
-    scan fuel env (escapeDollars s) acc none = .ok (acc ++ s)
-  | [], fuel, acc, h => by
-    cases fuel with
-    | zero => simp at h
-    | succ f => simp [escapeDollars, scan_nil]
-  | c :: cs, fuel, acc, h => by
-    cases fuel with
-    | zero => simp at h
-    | succ f =>
-      by_cases hc : c = '$'
-      · subst hc
-        simp only [escapeDollars, if_true, List.length_cons] at h ⊢
-        cases f with
-        | zero => omega
-        | succ f' =>
-          rw [scan_escaped, scan_escape env cs (f' + 1) _ (by omega)]
-          simp
-      · simp only [escapeDollars, hc, if_false, List.length_cons] at h ⊢
-        have : (c == '$') = false := by simp [hc]
-        rw [scan_nondollar _ _ _ _ _ _ this, scan_escape env cs f _ (by omega)]
-        simp
-
-theorem escapeDollars_length (s : Str) : (escapeDollars s).length ≤ 2 * s.length := by
-  induction s with
-  | nil => simp [escapeDollars]
-  | cons c cs ih => by_cases hc : c = '$' <;> simp [escapeDollars, hc] <;> omega
-
-theorem subst_escape (env : Env) (s : Str) : subst env (escapeDollars s) = .ok s := by
-  unfold subst fuelFor
-  rw [scan_escape env s _ [] (by omega)]
-  simp
-
-theorem scan_no_dollar (env : Env) : ∀ (s : Str) (fuel : Nat) (acc : Str), '$' ∉ s → s.length + 1 ≤ fuel →
-    scan fuel env s acc none = .ok (acc ++ s)
-  | [], fuel, acc, _, h => by
-    cases fuel with
-    | zero => simp at h
-    | succ f => simp [scan_nil]
-  | c :: cs, fuel, acc, hd, h => by
-    cases fuel with
-    | zero => simp at h
-    | succ f =>
-      have hc : (c == '$') = false := by
-        simp only [List.mem_cons, not_or] at hd
-        simp [Ne.symm hd.1]
-      rw [scan_nondollar _ _ _ _ _ _ hc, scan_no_dollar env cs f _ (by simp only [List.mem_cons, not_or] at hd; exact hd.2) (by simp at h; omega)]
-      simp
-
-theorem subst_no_dollar (env : Env) (s : Str) (h : '$' ∉ s) : subst env s = .ok s := by
-  unfold subst fuelFor
-  rw [scan_no_dollar env s _ [] h (by omega)]
-  simp
-theorem nameChar_ne {c d : Char} (h : isNameChar c = true) (hd : isNameChar d = false) : c ≠ d := by
-  intro e; subst e; rw [h] at hd; cases hd
-
-theorem spanName_append (n : Str) (d : Char) (t : Str) (hn : ∀ c ∈ n, isNameChar c = true) (hd : isNameChar d = false) :
-    spanName (n ++ d :: t) = (n, d :: t) := by
-  induction n with
-  | nil => simp [spanName, hd]
-  | cons c cs ih =>
-    have hc := hn c (by simp)
-    have := ih (fun x hx => hn x (by simp [hx]))
-    simp [spanName, hc, this]
-
-theorem firstCloseGo_other (c : Char) (cs : Str) (i : Nat) (o : Int) (h1 : c ≠ '}') (h2 : c ≠ '{') :
-    firstCloseGo (c :: cs) i o = firstCloseGo cs (i + 1) o := by
-  rw [firstCloseGo] <;> (intros; simp_all)
-
-theorem firstCloseGo_open (cs : Str) (i : Nat) (o : Int) :
-    firstCloseGo ('{' :: cs) i o = firstCloseGo cs (i + 1) (o + 1) := by
-  rw [firstCloseGo]
-
-theorem firstCloseGo_close1 (cs : Str) (i : Nat) : firstCloseGo ('}' :: cs) i 1 = some i := by
-  simp [firstCloseGo]
-
-theorem firstCloseGo_name (t u : Str) (i : Nat) (ht : ∀ c ∈ t, isNameChar c = true) :
-    firstCloseGo (t ++ '}' :: u) i 1 = some (i + t.length) := by
-  induction t generalizing i with
-  | nil => simp [firstCloseGo_close1]
-  | cons c cs ih =>
-    have hc := ht c (by simp)
-    have h1 : c ≠ '}' := nameChar_ne hc (by decide)
-    have h2 : c ≠ '{' := nameChar_ne hc (by decide)
-    rw [List.cons_append, firstCloseGo_other _ _ _ _ h1 h2, ih (i + 1) (fun x hx => ht x (by simp [hx]))]
-    simp; omega
-
-theorem indexOfGo_none (a : Char) (pat s : Str) (i : Nat) (h : a ∉ s) : indexOfGo (a :: pat) s i = none := by
-  induction s generalizing i with
-  | nil => simp [indexOfGo]
-  | cons c cs ih =>
-    simp only [List.mem_cons, not_or] at h
-    have : (a == c) = false := by simp [h.1]
-    simp [indexOfGo, List.isPrefixOf, this, ih (i + 1) h.2]
-
-theorem containsStr_op_name (op : Op) (n : Str) (hn : ∀ c ∈ n, isNameChar c = true) : containsStr op.str n = false := by
-  have key : ∀ (a : Char) (pat : Str), isNameChar a = false → containsStr (a :: pat) n = false := by
-    intro a pat ha
-    simp only [containsStr, indexOf]
-    rw [indexOfGo_none a pat n 0 (fun hm => by rw [hn a hm] at ha; cases ha)]
-    rfl
-  cases op <;> exact key _ _ (by decide)
-
-theorem matchBraced_name (n : Str) (hv : ValidName n) : matchBraced (n ++ ['}']) = (.braced n, n ++ ['}'], []) := by
-  obtain ⟨⟨c, r, rfl, hs⟩, hall⟩ := hv
-  have hsp := spanName_append (c :: r) '}' [] hall (by decide)
-  simp only [List.cons_append] at hsp
-  simp only [matchBraced, List.cons_append, hs, if_true, hsp]
-
-theorem repl_braced_name (f : Nat) (env : Env) (n : Str) (hv : ValidName n) :
-    repl (f + 1) env ('$' :: '{' :: (n ++ ['}'])) = .ok ((env n).getD []) := by
-  have hall := hv.2
-  obtain ⟨c, r, hn, hs⟩ := hv.1
-  have hfc : firstClose ('$' :: '{' :: (n ++ ['}'])) = some (n.length + 2) := by
-    simp only [firstClose]
-    rw [firstCloseGo_other _ _ _ _ (by decide) (by decide), firstCloseGo_open,
-      show ((0 : Int) + 1) = 1 from rfl,
-      firstCloseGo_name n [] _ hall]
-    simp; omega
-  have hlen : ('$' :: '{' :: (n ++ ['}'])).length = n.length + 2 + 1 := by simp
-  rw [repl]
-  simp only [hfc]
-  rw [List.take_of_length_le (by rw [hlen]; omega)]
-  simp only [matchDollar, matchBraced_name n hv, containsStr_op_name _ n hall]
-  rfl
-
-theorem subst_braced_var (env : Env) (n : Str) (hv : ValidName n) :
-    subst env ('$' :: '{' :: (n ++ ['}'])) = .ok ((env n).getD []) := by
-  unfold subst fuelFor
-  have : 2 * ('$' :: '{' :: (n ++ ['}'])).length + 4 = (2 * n.length + 8) + 2 := by simp; omega
-  rw [this, scan]
-  simp only [beq_self_eq_true, if_true, matchDollar, matchBraced_name n hv, repl_braced_name _ env n hv]
-  rw [scan]; simp
-end CV.TemplateC08
 
 namespace CV.Interp
 open CV CV.TPath
@@ -482,56 +329,5 @@ theorem errList_mem_errs (c : Cfg) : ∀ (xs : List Val) (p : TPath) (e : Err),
       · exact hm
     · cases h
 end
-
-/-! ## YAML 1.1 octal literals vs the decimal casters -/
-
-theorem foldl_zeros (b : Nat) (k : Nat) : (List.replicate k '0').foldl (fun n c => b * n + digitVal c) 0 = 0 := by
-  induction k with
-  | zero => rfl
-  | succ k ih =>
-    rw [List.replicate_succ, List.foldl_cons]
-    have : b * 0 + digitVal '0' = 0 := by simp [digitVal]
-    rw [this]; exact ih
-
-theorem digitVal_oct (d : Char) (hd : isOctDigit d = true) : digitVal d ≤ 7 := by
-  simp only [isOctDigit, Bool.and_eq_true, decide_eq_true_eq] at hd
-  have h2 : d.toNat ≤ '7'.toNat := hd.2
-  simp only [digitVal]
-  have : '7'.toNat = 55 := by decide
-  have : '0'.toNat = 48 := by decide
-  omega
-
-theorem yamlLegacyOctal_eq_parseInt_of_zeros (k : Nat) (d : Char) (hd : isOctDigit d = true) :
-    yamlLegacyOctal (String.ofList ('0' :: (List.replicate k '0' ++ [d]))) =
-      parseInt (String.ofList ('0' :: (List.replicate k '0' ++ [d]))) := by
-  have hdig : d.isDigit = true := by
-    simp only [isOctDigit, Bool.and_eq_true, decide_eq_true_eq] at hd
-    simp only [Char.isDigit, Bool.and_eq_true, decide_eq_true_eq]
-    exact ⟨hd.1, Nat.le_trans hd.2 (by decide)⟩
-  have h7 := digitVal_oct d hd
-  have hoct : (List.replicate k '0' ++ [d]).all isOctDigit = true := by
-    simp only [List.all_append, List.all_replicate, List.all_cons, List.all_nil, hd, Bool.and_true, Bool.and_eq_true]
-    simp [isOctDigit]
-  have hall : allDigits ('0' :: (List.replicate k '0' ++ [d])) = true := by
-    simp only [allDigits, List.all_cons, List.all_append, List.all_replicate, List.all_nil, hdig, Bool.and_true]
-    simp [Char.isDigit]
-  have hne : (List.replicate k '0' ++ [d]).isEmpty = false := by simp
-  have h8 : (List.replicate k '0' ++ [d]).foldl (fun n c => 8 * n + digitVal c) 0 = digitVal d := by
-    rw [List.foldl_append, foldl_zeros]; simp
-  have h10 : natOfDigits ('0' :: (List.replicate k '0' ++ [d])) = digitVal d := by
-    simp only [natOfDigits, List.foldl_cons]
-    have : 10 * 0 + digitVal '0' = 0 := by simp [digitVal]
-    rw [this, List.foldl_append, foldl_zeros]; simp
-  have hlhs : yamlLegacyOctal (String.ofList ('0' :: (List.replicate k '0' ++ [d]))) = some (digitVal d : Int) := by
-    simp only [yamlLegacyOctal, String.toList_ofList, hne, hoct, h8]
-    simp; omega
-  have hrhs : parseInt (String.ofList ('0' :: (List.replicate k '0' ++ [d]))) = some (digitVal d : Int) := by
-    simp only [parseInt, String.toList_ofList]
-    split
-    · rename_i h; simp at h
-    · rename_i h; simp at h
-    · simp only [hall, h10]
-      simp; omega
-  rw [hlhs, hrhs]
 
 end CV.Interp
